@@ -7,8 +7,10 @@ import sys
 
 VERIF = os.path.dirname(os.path.dirname(os.path.abspath(__file__)))
 sys.path.insert(0, VERIF)
+sys.path.insert(0, os.path.join(VERIF, "lib"))
 from checks import registry  # noqa: E402
 
+CHECKS = registry.collect()
 props = [json.loads(l)["id"] for l in open(os.path.join(VERIF, "properties.jsonl"))]
 hooks_commits = []
 hc = os.path.join(VERIF, "hooks-commits.txt")
@@ -17,7 +19,7 @@ if os.path.exists(hc):
 
 checks = []
 for pid in props:
-    c = registry.CHECKS.get(pid)
+    c = CHECKS.get(pid)
     if not c or not os.path.exists(os.path.join(VERIF, "checks", pid.lower() + ".py")):
         continue
     checks.append({
